@@ -180,6 +180,20 @@ def phase_c(rep, tier, seed):
             c["options"]["psi_divide_twopi"] = True
             c["options"].pop("reverse_current", None)
             c["explicit_psi"] = ["psi_sol"] if i % 8 == 1 else ["psi_core", "psi_sol"]
+        if i % 4 == 2:
+            # stratum: first grid through the Python API, with an option switched off by an
+            # explicit None; the embedded pair must regenerate it through the command line
+            from hsim import workloads
+
+            c["first"] = "api"
+            c["np"] = 1
+            c["geometry"] = ("lsn", "usn")[(i // 4) % 2]  # the per-leg None is accepted
+            c["options"] = workloads.tok_options(c["geometry"],
+                                                 y_boundary_guards=(i // 8) % 2)
+            c["explicit_psi"] = []
+            c["options"][("target_outer_lower_poloidal_spacing_length",
+                          "target_inner_lower_poloidal_spacing_length",
+                          "refine_timeout")[(i // 4) % 3]] = None
         cases.append(c)
     res = batch.map_chunks(_rt_job, cases, limit_s=1800)
     status = collections.Counter()
